@@ -779,6 +779,24 @@ pub fn ladder(rng: &mut Rng, cx: Cx) -> Frag {
         2 => Frag::Ripemd160(i % crate::world::N_PRE),
         _ => Frag::Hash160(i % crate::world::N_PRE),
     };
+    // one ladder in nine is a root `c:` over a compound K expression (a single CHECKSIG at the very
+    // end of the script, conditions and key choice in front of it)
+    if rng.chance(1, 9) {
+        let cond = |rng: &mut Rng| match rng.below(4) {
+            0 => Frag::Older(*rng.pick(&[1u32, 10, 144])),
+            1 => Frag::After(*rng.pick(&[1u32, 144, 500_000_001])),
+            _ => hash(rng, 1),
+        };
+        let kk = |i: usize| Frag::PkK(key(i));
+        let inner = match rng.below(5) {
+            0 => Frag::AndV(bx(Frag::Verify(bx(cond(rng)))), bx(kk(1))),
+            1 => Frag::OrI(bx(Frag::AndV(bx(Frag::Verify(bx(cond(rng)))), bx(kk(1)))), bx(kk(2))),
+            2 => Frag::AndOr(bx(pk(3)), bx(kk(1)), bx(Frag::AndV(bx(Frag::Verify(bx(cond(rng)))), bx(kk(2))))),
+            3 => Frag::AndV(bx(Frag::Verify(bx(cond(rng)))), bx(Frag::PkH(key(1)))),
+            _ => Frag::OrI(bx(kk(1)), bx(Frag::AndV(bx(Frag::Verify(bx(pk(2)))), bx(kk(3))))),
+        };
+        return Frag::Check(bx(inner));
+    }
     // signature-free arm: and_v(v:h1, and_v(v:h2, ... last))
     let sigless = |rng: &mut Rng| -> Frag {
         let h = 1 + rng.below(4);
